@@ -197,6 +197,16 @@ def run(res: C.Result):
         for mv in (1e-4, 1e-6):
             base = next(c for c in scripted if c["kind"] == kd)
             scripted.append(dict(base, op={"kind": kd, "max_value": mv, "mask": None}))
+    # designated: composites with two or three PER-ATOM parts (rotations) on groups of exactly 3 atoms - where an (n, 3) result has the shape of a 3 x 3 matrix
+    r12 = random.Random(res.seed ^ 0x10C3)
+    for j in range(4 if quick else 40):
+        base = dict(next(c for c in scripted if c["kind"] == "composite" and len(c["positions"]) >= 3))
+        n_ = len(base["positions"])
+        base["indices"] = sorted(r12.sample(range(n_), 3))
+        base["op"] = [{"kind": "rotation"}, {"kind": "rotation"}] if j % 2 == 0 else [{"kind": "rotation"}, {"kind": "ball", "step": 0.1}, {"kind": "rotation"}]
+        base["script"] = [r12.randint(1, 2 ** 16 - 1) / 2 ** 16 for _ in range(ndraws(base["op"]))]
+        base["warm"] = False
+        scripted.append(base)
     ns = len(scripted)
     cases = scripted + [gen_case(rng, k, "real") for k in range(nr)]
     # scripted involutions through the implementation: a second case with the mirrored draws
